@@ -46,13 +46,15 @@ THEOREMS = {
                                   "Tr.conns_shift", "Tr.wfData_shift", "Tr.C12_departure_reason", "Tr.C12_arrival_reason", "Tr.C12_map_status_departure", "Tr.C12_map_status_arrival",
                                   "Tr.CaughtF.shift", "Tr.CaughtR.shift", "Tr.allNodes_ok_iff_forward", "Tr.allNodes_ok_iff_reverse",
                                   "Tr.nv_shift", "Tr.nv_shift_maps", "Tr.nv_shift_nonneg", "Tr.nv_nonneg", "Tr.nv_results"]),
-    "C16": ("TrVerif.Props.C16", ["Tr.C16_connections", "Tr.C16_reverse_footpaths", "Tr.C16_sorted_lists", "Tr.C16_trip_lists", "Tr.C16_scenario_set", "Tr.C16_comparators"]),
+    "C16": ("TrVerif.Props.C16All", ["Tr.Load.C16_roundtrip", "Tr.Load.C16_loaded_conns", "Tr.Load.C16_loadTrips_perm", "Tr.Load.C16_loaded_conns_perm", "Tr.Load.C16_loaded_sorted",
+                                      "Tr.Load.getNodes_enc", "Tr.Load.schedLoop_enc", "Tr.Load.connLoop_enc", "Tr.Load.nv_enc", "Tr.Load.nv_loaded", "Tr.C16_connections", "Tr.C16_reverse_footpaths", "Tr.C16_sorted_lists", "Tr.C16_trip_lists", "Tr.C16_scenario_set", "Tr.C16_comparators"]),
     "C13": ("TrVerif.Props.C13", ["Tr.C13_history_independent", "Tr.C13_cache_kind_irrelevant", "Tr.C13_structure"]),
     "C14": ("TrVerif.Props.C14", ["Tr.C14_interleavings", "Tr.C14_progress", "Tr.C14_structure"]),
     "C15": ("TrVerif.Props.C15", ["Tr.C15_answers", "Tr.C15_all", "Tr.C15_schedules", "Tr.C15_old_state_irrelevant", "Tr.C15_status", "Tr.C15_structure", "Tr.C15_order"]),
     "C17": ("TrVerif.Props.C17All", ["Tr.Load.C17_no_ub", "Tr.Load.C17_conn_forward", "Tr.Load.C17_foot_nonneg", "Tr.Load.C17_missing_not_ready", "Tr.Load.C17_ready_all_nonempty",
                                       "Tr.Load.C17_guard_needed", "Tr.Load.C17_guard_rejects", "Tr.Load.C17_validation_source", "Tr.Load.connLoop_val", "Tr.C17_ready_iff", "Tr.C17_names_empty", "Tr.C17_missing_file_not_ready", "Tr.C17_every_request_data_error", "Tr.C17_ready_serves", "Tr.C17_codes", "Tr.C17_tables_cover", "Tr.C17_structure"]),
-    "C18": ("TrVerif.Props.C18", ["Tr.C18_index_safe", "Tr.C18_forward_guard", "Tr.C18_codes_documented", "Tr.C18_codes_specific", "Tr.C18_defaults", "Tr.C18_update_names"]),
+    "C18": ("TrVerif.Props.C18All", ["Tr.Par.C18_defect_present", "Tr.Par.C18_query_error_documented", "Tr.Par.C18_not_ready_data_error", "Tr.Par.C18_calc_meets_contract",
+                                      "Tr.Par.createCommon_spec", "Tr.Par.C18_stoi_examples", "Tr.Par.C18_params_examples", "Tr.C18_index_safe", "Tr.C18_forward_guard", "Tr.C18_codes_documented", "Tr.C18_codes_specific", "Tr.C18_defaults", "Tr.C18_update_names"]),
     "C19": ("TrVerif.Props.C19", ["Tr.C19_summary", "Tr.C19_handlers_mirror"]),
     "C20": ("TrVerif.Props.C20", ["Tr.C20_recovery", "Tr.C20_faulted_answer", "Tr.C20_fault_lookup", "Tr.C20_classes", "Tr.C20_structure"]),
 }
@@ -202,15 +204,18 @@ _reg("C15", "PROOF (over the refresh model): Tr.C15_answers - after /updateCache
      "status recomputed, call order). The loaders are assumed faithful (C16). Tie: in-process refresh histories (TransitData::update* of the harness vs the model, and vs a fresh TransitData) "
      "and the real ASan+UBSan binary refreshed over HTTP vs a freshly started one vs the Lean calculation model. Use of freed memory is only observable on the binary.",
      "Lean 4 theorem (state equality after refresh) + regenerated facts + in-process and real-binary refresh histories")
-_reg("C16", "PROOF (partial: the data layer only) + differential run of the real binary: the model's Dataset is the record-level content of the cache files; Tr.C16_connections - a trip yields one "
-     "connection per consecutive stop pair, the i-th leaving stop i of the path at the i-th departure time, reaching stop i+1 at the (i+1)-th arrival time, with the boarding flag of stop i, the "
-     "alighting flag of stop i+1 and sequence i+1; Tr.C16_reverse_footpaths - reverse footpaths are exactly the footpaths read backwards; Tr.C16_sorted_lists - both global lists hold exactly "
-     "the connections of all trips, ordered by the two comparators (whose keys and directions are re-read from the source: Tr.C16_comparators); Tr.C16_trip_lists - the per-trip lists are the trip's connections in hop / reverse hop order; Tr.C16_scenario_set - a scenario's "
-     "set is the filter of both lists by the scenario's admission test with both hour indexes built from the filtered lists. NOT modelled, hence NOT proved: the bytes (Cap'n Proto decoding is "
-     "trusted base) and the loaders' own code (field mapping, uuid resolution, JSON segment distances). That the real loaders produce this data layer is decided by running: generated datasets are "
-     "written as cache directories with the repository's own schemas, loaded by the real server binary (ASan+UBSan) behind a scripted walking-router stub; every HTTP answer is compared with the "
-     "in-memory calculation on the same dataset and with the Lean model, and every itinerary is checked against the dataset by the C01 oracle.",
-     "Lean 4 theorems about the model's data layer + differential: real binary on generated cache files vs in-memory calculation vs Lean model")
+_reg("C16", "PROOF (loaders modelled at record level, round trip proved; bytes trusted) + differential runs: Model/Load.lean transcribes the seven cache fetchers and loadAllData over the RECORDS of a "
+     "cache directory, Model/Encode.lean is the record-level `encode` that cachegen implements. Tr.Load.C16_roundtrip - for every dataset the schema can encode (ids in range, aligned arrays, 2 <= stop times <= "
+     "path stops, no backward hop, no negative footpath) loadAll (encode ds) is EXACTLY: stops with footpath vectors and reverse vectors in the loader's creation order, lines with agency and mode, paths with "
+     "stop order and segment distances, scenarios with all lists, trips with path / line / agency / mode / service; C16_loaded_conns - `connections` are, for the trips in file order, the connections of "
+     "Dataset.tripConns (hop k: stop k -> k+1, departure of k, arrival of k+1, boarding flag of k, alighting flag of k+1, sequence k+1, waiting 0 on a transferable line); C16_loadTrips_perm / "
+     "C16_loaded_conns_perm - file order is a permutation of the dataset's trips; C16_loaded_sorted - with unique trip ids forwardConnections / reverseConnections of the loaded data ARE the model's fwdAll / "
+     "revAll, so C01-C12 speak about what the server scans; nv_enc / nv_loaded - a concrete dataset meets the hypotheses. Data layer as before (C16_connections, C16_reverse_footpaths, C16_sorted_lists, "
+     "C16_trip_lists, C16_scenario_set, C16_comparators). NOT modelled: the bytes (Cap'n Proto decoding), service date strings. Tie: check/loader_corr.py on every run - generated directories decoded "
+     "to RECORDS (harness/decode.cpp, no loader code), loaded by the Lean model and by the real CacheFetcher + TransitData under ASan (harness/loader_harness.cpp), the two loaded states compared line by line; "
+     "`trmodel --encode` = the records cachegen wrote; then the real server binary behind a scripted walking-router stub: every HTTP answer compared with the in-memory calculation on the same dataset and with "
+     "the Lean model, every itinerary checked against the dataset by the C01 oracle, reported distances against the encoded ones.",
+     "Lean 4 theorems (record-level loader model: round trip of encode/load, loaded sorted lists = model lists) + model/real-loader differential + real binary on generated cache files vs in-memory calculation vs Lean model")
 _reg("C17", "PROOF (partial: record-level loader model + decision logic; bytes NOT modelled): Model/Load.lean transcribes the seven cache fetchers and loadAllData statement by statement over the "
      "RECORDS of a cache directory (any uuid texts, any array lengths, any dangling references, duplicates, files missing); exceptions end the enclosing try with the state reached so far, Cap'n Proto "
      "list reads are checked, `path.nodesRef[i]` is NOT (model outcome `ub`). For EVERY content: Tr.Load.C17_no_ub - loading never makes an unchecked out-of-range access (the trip validation protects "
@@ -223,10 +228,17 @@ _reg("C17", "PROOF (partial: record-level loader model + decision logic; bytes N
      "both sorted orders). NOT proved - no executable model exhibits it: the behaviour of the decoder and loaders on arbitrary BYTES (truncation, bit flips). That part is fault enumeration against "
      "the real ASan+UBSan binary at start-up and through /updateCache (every file missing / empty / truncated / bit-flipped / zeroed, every cross-file inconsistency incl. boundary counts).",
      "Lean 4 theorems (record-level loader model for all contents, decision logic, regenerated guards and tables) + model/real-loader differential on inconsistent directories + fault enumeration against the real sanitized binary")
-_reg("C18", "PROOF (partial): Tr.C18_index_safe / Tr.C18_forward_guard - both hour look-ups are in range for every integer time and every connection list; documented error codes, "
-     "defaults and /updateCache names are regenerated from the source and proved to match the documentation tables. The transport clauses (exactly one response, Content-Length, JSON body, "
-     "classification of generated malformed requests, no crash or hang) are observed over raw sockets against the real ASan+UBSan binary.",
-     "Lean 4 theorems (index safety, regenerated tables) + raw-socket request enumeration against the real binary")
+_reg("C18", "PROOF (partial: parameter handling and index safety proved, transport observed): Model/Params.lean is the string-level code of createCommonParameter / createRouteODParameter / "
+     "createAccessibilityParameter, std::stoi with full consumption and the exception -> status / errorCode mapping of the three handlers. For EVERY list of (name, value) pairs in EVERY order (the server "
+     "iterates a hash multimap), every coordinate parser and every scenario table: Tr.Par.C18_defect_present - a 400 names a defect actually present in the request (missing / malformed / non-numeric "
+     "parameter, unknown or empty scenario; origin / destination codes only on route and summary, place codes only on accessibility); C18_query_error_documented - its errorCode is a documented one; "
+     "C18_not_ready_data_error - on data that is not READY every request is answered data_error with the status's code; C18_calc_meets_contract - when the calculation runs, the scenario exists and has "
+     "services, the time of trip is a non-negative integer written in the request, every limit is normalised (waiting >= 0, maxima > 0 with MAX_INT = no limit, cap > 0 or disabled); C18_params_examples "
+     "(defaults, zero limit, four error codes; non-vacuity). Tr.C18_index_safe / C18_forward_guard - both hour look-ups are in range for every integer time and every connection list; documented codes, "
+     "defaults and /updateCache names regenerated from the source. Tie: every generated request without a duplicated key (7 600 per quick run, all ten error codes and both data_error codes) is "
+     "classified by `trmodel --classify` and compared with the real server's (HTTP status, status, errorCode, echoed time). NOT proved: std::stod / boost uuid parsing (parameters of the model), the "
+     "transport clauses (exactly one response, Content-Length, JSON body, no crash or hang) - observed over raw sockets against the real ASan+UBSan binary.",
+     "Lean 4 theorems (string-level parameter model for all parameter lists and orders, index safety, regenerated tables) + model/server classification differential + raw-socket request enumeration against the real binary")
 _reg("C19", "PROOF (full, over the model): Tr.C19_summary - nbRoutes, the set of lines and each line's count equal the number of routes, the lines boarded and the boardings per line of the "
      "/v2/route answer to the same parameters; Tr.C19_handlers_mirror states the regenerated source fact that both handlers run the same calculation. " + _M + " for both endpoints.",
      "Lean 4 theorem + regenerated structural fact + differential correspondence")
